@@ -345,6 +345,12 @@ func lexFixtures() []lxSpec {
 			{"Tag", []lxRule{L("NAME", b), L("EQ", c, pop, push("Val"))}},
 			{"Val", []lxRule{L("NUM", plusT(b)), L("SEMI", a, pop)}},
 		}},
+		// the same mode swap written on a fragment, with the terminating action last and first
+		{name: "frag-pop-then-push", alpha: abc, maxIn: 6, modes: []lxMode{
+			{"", []lxRule{L("LT", a, push("Tag")), L("TEXT", lit("x"))}},
+			{"Tag", []lxRule{L("NAME", b), L("", c, pop, push("Val"), discard)}},
+			{"Val", []lxRule{L("NUM", plusT(b)), L("SEMI", a, pop), L("", c, discard, pop, push("Tag"))}},
+		}},
 		{name: "push-then-pop-same-rule", alpha: abc, maxIn: 5, modes: []lxMode{
 			{"", []lxRule{L("P", a, push("M"), pop), L("Q", b, push("M"))}},
 			{"M", []lxRule{L("R", c, pop), L("S", lit("x"))}},
